@@ -114,6 +114,9 @@ func modelPartition(keys []int, groupNull bool) [][]int {
 }
 
 func runTableCase(c tableCase) *core.Failure {
+	if !seam.GrouperAvailable || !seam.CoreAvailable {
+		return nil // the internal grouper API changed: the table layer is skipped (noted in the evidence)
+	}
 	if c.Gen != "" {
 		var distinct int
 		var mult uint64
@@ -223,6 +226,10 @@ var hashAlphabetFull = []uint64{0, 8, 16, 7, 15, 1 << 32}
 var hashAlphabetSmall = []uint64{0, 8, 7, 1 << 32}
 
 func tableLayerRun(ctx *core.Ctx, op string) {
+	if !seam.GrouperAvailable || !seam.CoreAvailable {
+		ctx.Note("the seam into internal/grouper does not compile against this tree (its internal API changed): the table layer is skipped, the public-API layers run")
+		return
+	}
 	fullN, smallN := 5, 6
 	if !ctx.Quick() {
 		fullN, smallN = 6, 8
@@ -342,6 +349,9 @@ func tableLayerRun(ctx *core.Ctx, op string) {
 
 // largeTableCases: tables that grow beyond 2^16 slots, every key looked up again after the last growth
 func largeTableCases(ctx *core.Ctx, op string) {
+	if !seam.GrouperAvailable || !seam.CoreAvailable {
+		return
+	}
 	for _, distinct := range []int{40000, 70000} {
 		for _, mult := range []uint64{0x9E3779B1, 1, 0x10001} {
 			if !ctx.Mine() {
